@@ -98,6 +98,10 @@ def _worker_init(scratch_root):
     os.environ.setdefault('PYTHONHASHSEED', '0')
     import random
     random.seed(0)
+    import faulthandler, signal
+    dbg = os.environ.get('GXV_DEBUG_DIR')
+    if dbg:
+        faulthandler.register(signal.SIGUSR1, file=open(os.path.join(dbg, f'tb-{os.getpid()}.txt'), 'w'), all_threads=True)
 
 
 def _run_shard(args):
@@ -285,6 +289,8 @@ def _campaign(ctx, scratch_root, mod_name, mod, pid, a, seed, t0):
         replay_paths = []
         if unlisted:
             os.makedirs(os.path.join(VERIF_DIR, 'replay'), exist_ok=True)
+            for vs in unlisted[6:60]:
+                print(f'violation(more) clause={vs[0]["clause"]} sig={vs[0]["sig"]} occurrences={len(vs)} detail={json.dumps(vs[0]["detail"], default=repr)[:300]}')
             for vs in unlisted[:6]:
                 v = vs[0]
                 if hasattr(mod, 'evaluate') and not getattr(mod, 'NO_SHRINK', False):
